@@ -16,7 +16,8 @@ EXTENDS RuntimeMachine
 
 CONSTANTS LiveDefaultFallback,   \* TRUE: run() consults the live default table when the snapshot lacks the type
           RestorePerEntry,       \* TRUE: the runtime to restore is kept per thread and per entry
-          DropEmptySlot          \* TRUE: leaving the outermost block of a thread without a runtime removes the slot
+          DropEmptySlot,         \* TRUE: leaving the outermost block of a thread without a runtime removes the slot
+          LookupOnlyInTry        \* TRUE: only the table lookup of run() is guarded by `except KeyError`, not the handler call
 
 Unset == 0
 NoneRt == 99      \* the slot holds None (the pinned code could leave this behind)
@@ -122,6 +123,18 @@ ImplServed(t, ty) ==
          ELSE IF LiveDefaultFallback /\ defaults[ty] THEN DefaultTag(ty) ELSE TypeErr
 
 ImplServes == \A t \in Threads, ty \in ReqTypes : ImplServed(t, ty) = Served(t, ty)
+
+\* what reaches the caller when every handler raises KeyError(<its tag>) on the request: with the handler call
+\* inside the guarded region a KeyError of the handler is mistaken for "no handler in this runtime" and the
+\* request is passed on to the default (or reported as TypeError)
+ImplServedX(t, ty) ==
+    LET s == slot[t] IN
+    IF s = NoneRt THEN "AttributeError"
+    ELSE LET h == IF s = Unset THEN SnapOf(NoHeld) ELSE HandlersOfSlot(t, s) IN
+         IF h[ty] # NoH /\ LookupOnlyInTry THEN Raised(h[ty])
+         ELSE IF LiveDefaultFallback /\ defaults[ty] THEN Raised(DefaultTag(ty)) ELSE TypeErr
+
+ImplServesX == \A t \in Threads, ty \in ReqTypes : ImplServedX(t, ty) = SrvX[t][ty]
 
 IView == <<abs, snap, slot, pstack, objprev, implicit>>
 =============================================================================
